@@ -801,7 +801,7 @@ pub fn cold_start(ctx: &Ctx, rep: &mut Report) {
         return;
     }
     let t = &triples;
-    super::cold::parent(ctx, "C02", &["verify"], &[1], ctx.sz(300, 4000), &|i| t[i % t.len()].clone(), rep);
+    super::cold::parent(ctx, "C02", &["verify"], &[1], ctx.sz(1000, 8000), &|i| t[i % t.len()].clone(), rep);
     rep.require("cold_start_processes", 60);
 }
 
